@@ -92,3 +92,25 @@ func SetPkgOfFile(p string) {
 	pkgOfFile = p
 	curRecOfFile.Pkg = p
 }
+
+// ---- copied record
+
+type TypeRec struct {
+	Pkg    string
+	Super  string
+	Ifaces []string
+}
+
+var curTypeRec = &TypeRec{}
+
+func EnterMemberBad() {
+	member := *curTypeRec
+	curTypeRec = &member
+}
+
+func EnterMemberGood() {
+	member := *curTypeRec
+	member.Super = ""
+	member.Ifaces = nil
+	curTypeRec = &member
+}
